@@ -39,7 +39,7 @@ impl Property for Prop {
         "C05"
     }
     fn rule(&self) -> &'static str {
-        "short: every byte string of length 0..=2 (quick) / 0..=3 (thorough) in each of 15 receiver states (empty / one / full free list, zero slots, open context on the probed id / an aliasing id / every slot, context nearly full, storage smaller than fragments, remembered 3- and 6-byte label, manager knowing all / some / no mandatory ids (incl. ids declared with 253 / 254 / 255 data bytes, final and non-final), 256 slots, every slot open with the free list refilled); headers: every 16-bit header word x buffer length in {2,3,4,announced-1,announced,announced+1,announced+7} x structured tails (frag ids matching / aliasing / unknown, total length 0/1/2/0xFFFF, extension ids of every H-LEN, mandatory known/unknown ids, zero labels, zeros, FF, random), states rotated; mutated: packets of valid hand-made trains with bit flips, truncations, length-field edits, field splices; random: buffers up to 8 KiB; histories: sequences of 1..60 hostile packets on one decapsulator (state evolves, storage re-provisioned at random), incl. a state with 70000-byte storage and a context near 65535 bytes. Every decap / peek call is an evaluation; fingerprint = hash(state, input bytes); non-trivial = input of at least 2 bytes that is not padding (reaches a packet-kind handler)."
+        "short: every byte string of length 0..=2 (quick) / 0..=3 (thorough) in each of 15 receiver states (empty / one / full free list, zero slots, open context on the probed id / an aliasing id / every slot, context nearly full, storage smaller than fragments, remembered 3- and 6-byte label, manager knowing all / some / no mandatory ids (incl. ids declared with 253 / 254 / 255 data bytes, final and non-final), 256 slots, every slot open with the free list refilled); headers: every 16-bit header word x buffer length in {2,3,4,announced-1,announced,announced+1,announced+7} x structured tails (frag ids matching / aliasing / unknown, total length 0/1/2/0xFFFF, extension ids of every H-LEN, mandatory known/unknown ids, zero labels, zeros, FF, random), states rotated; mutated: packets of valid hand-made trains with bit flips, truncations, length-field edits, field splices; random: buffers up to 8 KiB; histories: sequences of 1..60 hostile packets on one decapsulator (state evolves, storage re-provisioned at random with buffers of 1x / 2x / 5x the configured size, through the decapsulator or its public memory field), allopen: a reassembly open on every one of the 256 fragment ids at once (256 / 300 / 255-slot memories), continued and finished; memfaults: valid and rejected trains on a memory wrapper that refuses the i-th trait operation with each documented error, for every i; incl. a state with 70000-byte storage and a context near 65535 bytes. Every decap / peek call is an evaluation; fingerprint = hash(state, input bytes); non-trivial = input of at least 2 bytes that is not padding (reaches a packet-kind handler)."
     }
     fn gens(&self, cx: &Cx) -> Vec<Gen> {
         vec![
@@ -48,6 +48,8 @@ impl Property for Prop {
             Gen { name: "mutated", count: cx.n(40_000, 2_000_000), exhaustive: false },
             Gen { name: "histories", count: cx.n(20_000, 1_000_000), exhaustive: false },
             Gen { name: "bighist", count: cx.n(64, 2_000), exhaustive: false },
+            Gen { name: "allopen", count: 4, exhaustive: true },
+            Gen { name: "memfaults", count: cx.n(3_000, 200_000), exhaustive: false },
         ]
     }
     fn run_key(&self, cx: &Cx, gen: &str, key: u64, rep: &mut Report) {
@@ -200,7 +202,15 @@ impl Property for Prop {
                         }
                     }
                     if rng.chance(1, 6) {
-                        let _ = d.provision_storage(vec![0u8; st.pdu_size.max(1)].into_boxed_slice());
+                        // buffers of the configured size, and now and then larger ones, through the decapsulator or
+                        // directly through its public memory field (the pool then holds buffers of different sizes)
+                        let sz = st.pdu_size.max(1) * [1usize, 1, 1, 2, 5][rng.below(5)];
+                        if rng.chance(1, 2) {
+                            let _ = d.provision_storage(vec![0u8; sz].into_boxed_slice());
+                        } else {
+                            use dvb_gse_rust::gse_decap::GseDecapMemory;
+                            let _ = d.memory.provision_storage(vec![0u8; sz].into_boxed_slice());
+                        }
                     }
                     if rng.chance(1, 20) {
                         d.reset_last_label();
@@ -210,6 +220,111 @@ impl Property for Prop {
                     }
                 }
                 rep.count("c05.histories");
+            }
+            "allopen" => {
+                // a reassembly open on EVERY fragment id at once (256-slot and 300-slot memories with enough storage),
+                // then every train is continued and finished: valid traffic, no call may panic
+                let slots = [256usize, 300, 256, 255][key as usize];
+                let order_rev = key == 2;
+                let mut d = plain_dec(slots, 16, 258, 16, crate::wire::MandTable::none());
+                let mut rx = RxSpec::new(crate::wire::MandTable::none());
+                let fr = crate::refcrc::FastRef::new();
+                let trains: Vec<Vec<Vec<u8>>> = (0..=255u8).map(|id| crate::hostile::mk_train(&fr, 2, &[], id, 0x0800, &[id, id ^ 0x55, 3, 4, 5, 6, 7, 8], &[3, 6])).collect();
+                for step in 0..3 {
+                    for k in 0..256usize {
+                        let id = if order_rev { 255 - k } else { k };
+                        let p = &trains[id][step];
+                        rep.eval();
+                        let res = dec_guard(&mut d, p);
+                        rx.observe(p, &res, RX_C05, "all-ids-open", rep, &replay);
+                        match res {
+                            Err(_) => {
+                                rep.count("c05.panic");
+                                return;
+                            }
+                            Ok(Ok((DecapStatus::CompletedPkt(b, _), _))) => {
+                                rep.count("c05.allopen-delivered");
+                                let _ = d.provision_storage(b);
+                            }
+                            _ => {}
+                        }
+                        rep.nontrivial(mix(mix(0xA110, key), (step * 256 + k) as u64));
+                    }
+                }
+            }
+            "memfaults" => {
+                // a memory behind the trait that refuses ONE operation with an error the trait documents for it
+                // (a contract-respecting custom memory may do that at any time): decap must still return
+                use crate::mon::{Fault, RecCrc};
+                let slots = 1 + rng.below(3);
+                let fr = crate::refcrc::FastRef::new();
+                let id = rng.byte();
+                let pdu_n = 6 + rng.below(40);
+                let pdu = rng.bytes(pdu_n);
+                let lt = rng.below(3) as u8;
+                let lab = [0xA1u8, 2, 3, 4, 5, 6];
+                let wl: &[u8] = match lt {
+                    0 => &lab[..],
+                    1 => &lab[..3],
+                    _ => &[],
+                };
+                let c1 = 1 + rng.below(pdu.len() / 2);
+                let c2 = c1 + 1 + rng.below(pdu.len() - c1 - 1);
+                let mut pkts = crate::hostile::mk_train(&fr, lt, wl, id, 0x0800, &pdu, &[c1, c2]);
+                pkts.push(crate::hostile::mk_complete(lt, wl, 0x0800, &pdu[..4]));
+                // bad CRC copy of the end packet and an oversize intermediate: the rejection paths give buffers back
+                let mut bad = pkts[2].clone();
+                let l = bad.len();
+                bad[l - 1] ^= 0xFF;
+                for variant in 0..3 {
+                    let seq: Vec<&Vec<u8>> = match variant {
+                        0 => vec![&pkts[0], &pkts[1], &pkts[2], &pkts[3]],
+                        1 => vec![&pkts[0], &pkts[1], &bad, &pkts[3]],
+                        _ => vec![&pkts[3], &pkts[0], &pkts[0], &pkts[1], &pkts[2]],
+                    };
+                    // count the operations of the undisturbed run
+                    let mk = || crate::util::mon_dec(slots, 64, &[64, 64, 64], crate::wire::MandTable::none(), RecCrc::off());
+                    let mut probe = mk();
+                    probe.memory.arm(None);
+                    for p in &seq {
+                        if let Ok(Ok((DecapStatus::CompletedPkt(b, _), _))) = dec_guard(&mut probe, p) {
+                            let _ = probe.provision_storage(b);
+                        }
+                    }
+                    let nops = probe.memory.ops;
+                    for i in 0..nops {
+                        for fault in [Fault::Underflow, Fault::Overflow, Fault::TooSmall, Fault::UndefinedId, Fault::Corrupted] {
+                            let mut d = mk();
+                            d.memory.arm(Some((i, fault.clone())));
+                            for p in &seq {
+                                rep.eval();
+                                let res = dec_guard(&mut d, p);
+                                match &res {
+                                    Err(pm) => {
+                                        rep.violation("C05", format!("decap-panic:{}:memory-refusal:{:?}", panic_class(pm), fault), || format!("memory operation {} of {} refused with {:?}: decap panicked on {}: {}", i, nops, fault, hex_short(p, 40), pm), &replay);
+                                        break;
+                                    }
+                                    Ok(r) => {
+                                        let consumed = match r {
+                                            Ok((_, n)) => *n,
+                                            Err((_, n)) => *n,
+                                        };
+                                        if consumed > p.len() || consumed < 2.min(p.len()) {
+                                            rep.violation("C05", format!("consumed-out-of-bounds:memory-refusal:{:?}", fault), || format!("memory operation {} refused with {:?}: decap consumed {} of {} bytes", i, fault, consumed, p.len()), &replay);
+                                        }
+                                    }
+                                }
+                                if let Ok(Ok((DecapStatus::CompletedPkt(b, _), _))) = res {
+                                    let _ = d.provision_storage(b);
+                                }
+                            }
+                            if d.memory.fired {
+                                rep.count("c05.memory-refusals-injected");
+                            }
+                        }
+                    }
+                }
+                rep.nontrivial(mix(0xFA17, key));
             }
             _ => {}
         }
